@@ -927,8 +927,13 @@ class Tensor:
         relationship with the view-tensor since these are measures of "cause and effects"
         associated with varying elements of data (albeit infinitesmaly).
         """
-        if self._base is None:
+        if self._base is None or self._base._constant:
+            # (a non-constant view of a constant base owns its gradient: its base never gets one)
             return self._grad
+
+        if self._constant:
+            # a constant view never has a gradient, even though its non-constant base does
+            return None
 
         if self._view_grad is not None and self._view_grad.base is self._base._grad:
             # view grad has been computed already
